@@ -25,8 +25,15 @@ Definition idx_name (d : idxdesc) : option string :=
 
 Definition mem (s : string) (l : list string) : bool := existsb (String.eqb s) l.
 
-(* all_columns = set(column['name'] for column in metadata.get('columns', [])):
-   the pandas name of every stored column; None for an unnamed index level *)
+(* one entry of metadata['columns']: its 'field_name' key (None = key absent)
+   and its pandas 'name' (None for an unnamed index level) *)
+Definition mdcol := (option string * option string)%type.
+
+(* all_columns = set(column.get('field_name', column['name']) for column in ...):
+   an unnamed index level is stored under its field name (__index_level_0__) *)
+Definition all_columns_of (cols : list mdcol) : list (option string) :=
+  map (fun '(field_name, name) => match field_name with Some f => Some f | None => name end) cols.
+
 Definition mem_opt (s : string) (l : list (option string)) : bool :=
   existsb (fun o => match o with Some t => String.eqb s t | None => false end) l.
 
@@ -34,19 +41,20 @@ Definition mem_opt (s : string) (l : list (option string)) : bool :=
         ...
         if name is not None and name not in columns and name in all_columns:
             extra_index_columns.append(name)                                  *)
-Definition extra_index_columns (all_columns : list (option string)) (index_cols : list idxdesc)
+Definition extra_index_columns (mdcols : list mdcol) (index_cols : list idxdesc)
            (columns : list string) : list string :=
+  let all_columns := all_columns_of mdcols in
   flat_map (fun d => match idx_name d with
                      | Some n => if negb (mem n columns) && mem_opt n all_columns then [n] else []
                      | None => []
                      end) index_cols.
 
 (* the [columns] argument of dataset.read; None = read everything *)
-Definition read_columns (all_columns : list (option string)) (index_cols : list idxdesc)
+Definition read_columns (mdcols : list mdcol) (index_cols : list idxdesc)
            (columns : option (list string)) : option (list string) :=
   match columns with
   | None => None
-  | Some cs => Some (extra_index_columns all_columns index_cols cs ++ cs)
+  | Some cs => Some (extra_index_columns mdcols index_cols cs ++ cs)
   end.
 
 (*  if df.index.name == "__null_dask_index__": df.index.name = None  *)
